@@ -74,6 +74,42 @@ Proof. intros H. unfold wrap64. rewrite Z.mod_small; lia. Qed.
 Lemma wrap64_range z : - 2^63 <= wrap64 z < 2^63.
 Proof. unfold wrap64. pose proof (Z.mod_pos_bound (z + 2^63) (2^64) ltac:(lia)). lia. Qed.
 
+(* Rows*Cols/Cols == Rows on 64-bit ints is a complete overflow test for non-negative dimensions *)
+Lemma dims_ok rows cols :
+  dims_bad rows cols = false -> 0 <= rows /\ 0 <= cols /\ wrap64 (rows * cols) = rows * cols.
+Proof.
+  unfold dims_bad. intros H. apply orb_false_elim in H as [H Hq]. apply orb_false_elim in H as [Hr Hc].
+  split; [lia|]. split; [lia|].
+  destruct (cols =? 0) eqn:E0.
+  - apply Z.eqb_eq in E0. subst. rewrite Z.mul_0_r. reflexivity.
+  - simpl in Hq. apply negb_false_iff in Hq. apply Z.eqb_eq in Hq. apply Z.eqb_neq in E0.
+    assert (0 < cols) as Hcp by lia.
+    pose proof (wrap64_range (rows * cols)) as Hw.
+    destruct (Z.eq_dec rows 0) as [->|Hr0]; [reflexivity|].
+    assert (0 < rows) as Hrp by lia.
+    set (p := wrap64 (rows * cols)) in *.
+    assert (0 <= p) as Hp.
+    { destruct (Z_lt_le_dec p 0) as [Hneg|]; [|assumption]. exfalso.
+      assert (Z.quot p cols <= 0) by (apply Z.quot_le_upper_bound; lia || (rewrite Z.mul_0_r; lia)). lia. }
+    pose proof (Z.quot_rem' p cols) as Hqr. pose proof (Z.rem_bound_pos p cols Hp Hcp) as Hrb.
+    rewrite Hq in Hqr. apply wrap64_small. split; [nia|]. nia.
+Qed.
+
+Lemma dims_good rows cols : 0 <= rows -> 0 <= cols -> rows * cols < 2^63 -> dims_bad rows cols = false.
+Proof.
+  intros Hr Hc Hb. unfold dims_bad. replace (rows <? 0) with false by lia. replace (cols <? 0) with false by lia. simpl.
+  destruct (cols =? 0) eqn:E0; [reflexivity|]. apply Z.eqb_neq in E0. simpl.
+  rewrite wrap64_small by nia. rewrite Z.quot_mul by assumption. rewrite Z.eqb_refl. reflexivity.
+Qed.
+
+Lemma dims_overflow_test_exact rows cols : 0 <= rows -> 0 <= cols ->
+  (dims_bad rows cols = false <-> wrap64 (rows * cols) = rows * cols).
+Proof.
+  intros Hr Hc. split.
+  - intros H. apply dims_ok in H. tauto.
+  - intros H. apply dims_good; try assumption. pose proof (wrap64_range (rows * cols)). lia.
+Qed.
+
 (* ---------------------------------------------------------------- znth / zrange *)
 Lemma zlen_nonneg {A} (l : list A) : 0 <= zlen l.
 Proof. unfold zlen; lia. Qed.
